@@ -575,7 +575,6 @@ class GotWantException(AssertionError):
                     want = utils.color_text(want, 'red')
                 text = 'Expected:\n{}\nGot nothing\n'.format(utils.indent(want))
             elif got:  # nocover
-                raise AssertionError('impossible state')
                 text = 'Expected nothing\nGot:\n{}'.format(utils.indent(got))
             else:  # nocover
                 raise AssertionError('impossible state')
